@@ -248,8 +248,18 @@ def sink_doc():
     ], includes=["inc.thrift"], namespaces=[{"lang": "go", "name": "sink"}])]
 
 
+def tiny_docs():
+    """documents small enough for exhaustive exploration of the printer machine itself"""
+    return [
+        doc("tiny_struct", [struct("S", [F(None, "default", T("i32"), "a", I(5))])]),
+        doc("tiny_const", [const("L", T("list", T("string")), LST(L("a"), L(DQc())))]),
+        doc("tiny_enum", [enum("E", [("A", None, [A("k", "'")]), ("B", 3)])]),
+        doc("tiny_dbl", [const("X", T("double"), D(0, "5"))], namespaces=[{"lang": "go", "name": "t"}]),
+    ]
+
+
 def c03_docs(tier):
-    out = core_docs() + literal_docs() + number_docs() + sink_doc()
+    out = tiny_docs() + core_docs() + literal_docs() + number_docs() + sink_doc()
     out += id_pattern_docs(2 if tier == "quick" else 3)
     out += field_matrix_docs() if tier == "thorough" else field_matrix_docs()[:2]
     special = backslash_quote_docs() + exponent_docs()
